@@ -59,12 +59,21 @@ type c14Event struct {
 	CMVer    int  // config map data version (global / tcp)
 	CMWhich  string
 	CMEmpty  bool // the update leaves the ConfigMap without data
+	Alias    int  // > 0: the event is about the object of that earlier event of the same kind
+	Shared   bool // the object of this event gets more than one event in the history
 }
 
-// sharedName: events of the global / tcp ConfigMap all carry the same object name.
-func (e c14Event) sharedName() bool { return e.Kind == KConfigMap && e.CMWhich != "other" }
+// sharedName: events of the global / tcp ConfigMap all carry the same object name, and so do the events
+// that are about one and the same object (Alias): their links cannot tell the events apart.
+func (e c14Event) sharedName() bool { return e.Kind == KConfigMap && e.CMWhich != "other" || e.Shared }
 
-func (e c14Event) name() string { return fmt.Sprintf("%s-e%d", strings.ToLower(e.Kind), e.ID) }
+func (e c14Event) name() string {
+	id := e.ID
+	if e.Alias > 0 {
+		id = e.Alias
+	}
+	return fmt.Sprintf("%s-e%d", strings.ToLower(e.Kind), id)
+}
 
 func genC14(seed uint64, tier string) *RunConfig {
 	r := rand.New(rand.NewPCG(seed, 0xc14))
@@ -77,6 +86,7 @@ func genC14(seed uint64, tier string) *RunConfig {
 		nswaps = 1 + r.IntN(6)
 	}
 	cmver := 0
+	firstOfKind := map[string][]int{}
 	for i := 1; i <= n; i++ {
 		kind := kindsPool[r.IntN(len(kindsPool))]
 		typ := []string{"add", "update", "update", "delete"}[r.IntN(4)]
@@ -93,6 +103,13 @@ func genC14(seed uint64, tier string) *RunConfig {
 				// a removed ConfigMap is delivered as an emptied one
 				key += ":emptied"
 			}
+		}
+		if kind != KConfigMap && len(firstOfKind[kind]) > 0 && r.IntN(4) == 0 {
+			// a second event about an object the history already touched (created and updated, deleted and
+			// created again ... possibly inside one batch)
+			note += fmt.Sprintf(",%d", firstOfKind[kind][r.IntN(len(firstOfKind[kind]))])
+		} else if kind != KConfigMap {
+			firstOfKind[kind] = append(firstOfKind[kind], i)
 		}
 		rc.Ops = append(rc.Ops, Op{Type: "event", Kind: kind, Note: typ + "," + note, Key: key, Ms: i})
 	}
@@ -243,6 +260,9 @@ func runC14(r *Run) error {
 		case "event":
 			f := strings.Split(op.Note, ",")
 			e := c14Event{ID: op.Ms, Kind: op.Kind, Typ: f[0], OldValid: f[1] == "true", NewValid: f[2] == "true"}
+			if len(f) > 3 {
+				fmt.Sscanf(f[3], "%d", &e.Alias)
+			}
 			if op.Key != "" {
 				f := strings.Split(op.Key, ":")
 				e.CMWhich = f[0]
@@ -251,6 +271,32 @@ func runC14(r *Run) error {
 			}
 			events = append(events, e)
 		}
+	}
+	for i := range events {
+		if a := events[i].Alias; a > 0 {
+			events[i].Shared = true
+			for j := range events {
+				if events[j].ID == a {
+					events[j].Shared = true
+				}
+			}
+		}
+	}
+	sharedID := map[int]bool{}
+	for _, e := range events {
+		if e.Shared {
+			sharedID[e.ID] = true
+		}
+	}
+	// the accumulator model is fed with the events whose link identifies them
+	unshared := func(ids []int) []int {
+		var out []int
+		for _, id := range ids {
+			if !sharedID[id] {
+				out = append(out, id)
+			}
+		}
+		return out
 	}
 	byKind := map[string][]c14Event{}
 	var kindOrder []string
@@ -312,7 +358,7 @@ func runC14(r *Run) error {
 			ret := nextSeq()
 			batches = append(batches, ch)
 			batchSeq = append(batchSeq, ret)
-			ids := batchEventIDs(ch)
+			ids := unshared(batchEventIDs(ch))
 			ops = append(ops, porcupine.Operation{ClientId: 0, Input: c14In{take: true}, Call: call, Output: c14Out{ids: ids}, Return: ret})
 			r.trace("swap %d -> %v [%d,%d]", i, ids, call, ret)
 			r.reconciles++
@@ -334,7 +380,7 @@ func runC14(r *Run) error {
 	final := hw.GetChangedObjects()
 	batches = append(batches, final)
 	batchSeq = append(batchSeq, nextSeq())
-	ops = append(ops, porcupine.Operation{ClientId: 0, Input: c14In{take: true}, Call: sched.seq + 1, Output: c14Out{ids: batchEventIDs(final)}, Return: sched.seq + 2})
+	ops = append(ops, porcupine.Operation{ClientId: 0, Input: c14In{take: true}, Call: sched.seq + 1, Output: c14Out{ids: unshared(batchEventIDs(final))}, Return: sched.seq + 2})
 	r.probe("c14_histories")
 
 	// (1) conservation: each accepted event in exactly one batch: link, description, typed entry
@@ -345,6 +391,20 @@ func runC14(r *Run) error {
 		}
 	}
 	for _, e := range events {
+		if e.Shared && e.Kind != KConfigMap && accepted[e.ID] {
+			// several events about one object: each accepted one leaves its link and its own change
+			// description in some batch (the descriptions of one batch are a set)
+			found := false
+			for _, b := range batches {
+				found = found || (batchHasLink(b, e) && batchHasObjectDesc(b, e))
+			}
+			r.probe("c14_shared_object_event")
+			if !found {
+				r.violate(&Violation{Property: "C14", Oracle: "conservation", Class: "description-missing",
+					Witness: fmt.Sprintf("event %d (%s %s %s, an object with several events) is accepted but no batch carries its link together with its change description: %s", e.ID, e.Typ, e.Kind, e.name(), describeBatches(batches))})
+				return nil
+			}
+		}
 		if e.sharedName() {
 			continue // the global and tcp ConfigMaps keep their name: checked by the chaining oracle
 		}
@@ -376,11 +436,17 @@ func runC14(r *Run) error {
 			}
 		}
 	}
+	acceptedName := map[string]bool{}
+	for _, e := range events {
+		if accepted[e.ID] {
+			acceptedName[e.name()] = true
+		}
+	}
 	// typed entries never outnumber the accepted events
 	for _, b := range batches {
 		for _, ing := range append(append(append([]*networking.Ingress{}, b.IngressesAdd...), b.IngressesUpd...), b.IngressesDel...) {
 			var id int
-			if _, err := fmt.Sscanf(ing.Name, "ingress-e%d", &id); err == nil && !accepted[id] {
+			if _, err := fmt.Sscanf(ing.Name, "ingress-e%d", &id); err == nil && !acceptedName[ing.Name] {
 				r.violate(&Violation{Property: "C14", Oracle: "conservation", Class: "typed-entry-of-filtered-event",
 					Witness: fmt.Sprintf("ingress %s is listed in a batch although its event was filtered", ing.Name)})
 				return nil
@@ -682,5 +748,5 @@ func describeOps(ops []porcupine.Operation) string {
 }
 
 func init() {
-	register(&Profile{Name: "batches", Prop: "C14", Custom: runC14, Oracles: OracleSet{Property: "C14"}, Build: genC14})
+	register(&Profile{Name: "batches", Prop: "C14", Weight: 4, Custom: runC14, Oracles: OracleSet{Property: "C14"}, Build: genC14})
 }
